@@ -140,6 +140,9 @@ def main(tier, seed, prop=PROP):
     wb = LG.width_boundary_strings(tier, utf8=True)
     for i in range(0, len(wb), 30):
         jobs.append((w_list63, (exe, wb[i:i + 30], opts, "width-boundaries", False, False)))
+    for which in ("atom", "quoted", "utf8", "utf8-cut", "late-space"):
+        jobs.insert(0, (LG.w_giant, (exe, ["6531"], (9 if tier == "quick" else 33) * 1024 * 1024, opts, PROP, which)))
+    jobs[0:0] = LG.huge_jobs(cx.exe("plain-O2", san="plain-O2"), ["6531"], tier, opts, PROP)
     four = four_byte_cover()
     pos = []
     for x in four:
@@ -197,6 +200,7 @@ def main(tier, seed, prop=PROP):
     total = {"%s+%s" % (s, cl) for (s, cl) in trans if s != "X"}
     seen = rep.cov.pop("transitions." + MODE, set()) & total
     rep.require(not (len(seen) < len(total)), "reference transition cover incomplete: %s" % sorted(total - seen)[:5])
+    rep.require(rep.counters.get("huge.strings", 0) > 0, "no 2 GiB input could be allocated")
     rep.assumptions += ["Python's strict UTF-8 codec defines well-formedness (no overlongs, surrogates, > U+10FFFF)",
                         "R-LOCAL(6531) = RFC 5321 automaton with every non-ASCII scalar as one atom/qtext symbol that cannot be escaped"]
     three = "all 2^24" if tier != "quick" else "stride-509 sample + 600-wide neighbourhoods of every encoding boundary"
